@@ -34,7 +34,17 @@ NextText == seed # <<-2>> /\ seed' = <<-2>> /\ x' \in {seed \o w : w \in Words(T
 Num1 == {[has |-> 0, b |-> <<>>], [has |-> 1, b |-> <<0>>], [has |-> 1, b |-> <<5>>], [has |-> 1, b |-> <<0, 5>>],
          [has |-> 1, b |-> <<0, 0, 0, 9>>]}
 Ver1 == {[has |-> 0, b |-> <<>>], [has |-> 1, b |-> <<3>>], [has |-> 1, b |-> <<0, 0, 7>>]}
-Nam1 == {[has |-> 0, b |-> <<>>], [has |-> 1, b |-> <<>>], [has |-> 1, b |-> <<120>>], [has |-> 1, b |-> LookAlike]}
+Nam1 == {[has |-> 0, b |-> <<>>], [has |-> 1, b |-> <<>>], [has |-> 1, b |-> <<120>>], [has |-> 1, b |-> LookAlike],
+         [has |-> 1, b |-> <<239, 187, 191>>],                  \* only U+FEFF: a non-empty name
+         [has |-> 1, b |-> <<194, 160, 120>>],                  \* U+00A0 x
+         [has |-> 1, b |-> <<120, 255>>]}                       \* not UTF-8
+\* UTF-8 vectors
+ASSUME Utf8(<<239, 187, 191, 65>>) = [ok |-> TRUE, s |-> <<65279, 65>>]
+ASSUME Utf8(<<240, 159, 152, 128>>) = [ok |-> TRUE, s |-> <<128512>>]
+ASSUME Utf8(<<244, 143, 191, 191>>) = [ok |-> TRUE, s |-> <<1114111>>]
+ASSUME Utf8(<<226, 128, 168, 204, 129>>) = [ok |-> TRUE, s |-> <<8232, 769>>]
+ASSUME \A bad \in {<<192, 128>>, <<224, 128, 128>>, <<237, 160, 128>>, <<244, 144, 128, 128>>, <<245, 128, 128, 128>>, <<128>>,
+                    <<195>>, <<239, 187>>, <<120, 255>>, <<240, 143, 191, 191>>} : ~Utf8(bad).ok
 DCase(w, c, d, dn, dv, p, pn, pv) == [w |-> w, V |-> <<c, d, dn, dv, p, pn, pv>>]
 Absent == [has |-> 0, b |-> <<>>]
 InitDerive == seed \in Num1 /\ x = DCase("prj", Absent, Absent, Absent, Absent, Absent, Absent, Absent)
@@ -69,14 +79,17 @@ DeriveCases ==
         ver == IF prj THEN V[7] ELSE V[4]
         nam == IF prj THEN V[6] ELSE V[3]
         complete == IF prj THEN V[1].has = 1 /\ V[5].has = 1 ELSE V[1].has = 1
-        named == nam.has = 1 /\ Len(nam.b) > 0
+        \* the characters of the names of this instance, stated literally (not through Utf8)
+        txt == IF nam.b = <<239, 187, 191>> THEN <<65279>> ELSE IF nam.b = <<194, 160, 120>> THEN <<160, 120>> ELSE nam.b
+        und == nam.has = 1 /\ nam.b = <<120, 255>>
+        named == nam.has = 1 /\ Len(txt) > 0
         r == Derive(x.w, V)
-    IN  /\ r.ok <=> (ver.has = 1 /\ (complete \/ named))
-        /\ ~r.ok => r.err = (IF prj THEN ErrPrj ELSE ErrDev)
-        /\ (r.ok /\ ~complete) => (r.id.c = None /\ r.id.p = None /\ r.id.d = None /\ r.id.n = Name(nam.b))
+    IN  /\ r.ok <=> (ver.has = 1 /\ ~und /\ (complete \/ named))
+        /\ ~r.ok => r.err = (IF ver.has = 1 /\ und THEN ErrUtf ELSE IF prj THEN ErrPrj ELSE ErrDev)
+        /\ (r.ok /\ ~complete) => (r.id.c = None /\ r.id.p = None /\ r.id.d = None /\ r.id.n = Name(txt))
         /\ (r.ok /\ complete) => /\ r.id.c = Unk(BE(V[1].b)) /\ r.id.d = Unk(IF V[2].has = 1 THEN BE(V[2].b) ELSE 0)
                                  /\ r.id.p = (IF prj THEN Unk(BE(V[5].b)) ELSE 0)
-                                 /\ r.id.n = (IF nam.has = 1 THEN Name(nam.b) ELSE NoName)
+                                 /\ r.id.n = (IF nam.has = 1 THEN Name(txt) ELSE NoName)
         /\ r.ok => r.id.v = BE(ver.b)
 DerivedRoundTrip == LET r == Derive(x.w, x.V) IN (r.ok /\ InDomain(r.id) /\ ~Ambiguous(r.id)) => Same(r.id)
 =============================================================================
